@@ -323,14 +323,10 @@ def _add_zid_to_line(zid: str, line: str) -> str:
     line_before_zid = _pop_line_before_zid(words)
 
     # Remove a YYYY-MM-DD create date if one existed prior to adding a ZID to
-    # the note.
-    if len(words[0]) == 10:
-        dash_idices = (4, 7)
-        for i, ch in enumerate(words[0][:10]):
-            if i not in dash_idices and not ch.isdigit():
-                break
-        else:
-            words.pop(0)
+    # the note. The note's indexed body drops exactly the same word (see
+    # _add_zids() in the SQL repo), so both must use the same test.
+    if zdt.is_long_date_spec(words[0]):
+        words.pop(0)
 
     return f"{line_before_zid}{zid} {' '.join(words)}"
 
